@@ -490,6 +490,7 @@ def run(chk):
     sub = type(chk)(chk.pid, chk.tier)
     sub._known = []
     c02.r3_canonical_key(sub, prog)
+    c02.r3_canonical_constraint_lists(sub, prog)
     # a requirement is fulfilled for every argument that asked for it (complete scan)
     c02.r9_constraint_scans(sub, prog)
     for o in sub.obligations:
